@@ -166,7 +166,9 @@ class HPS(Harness):
         self.sufficient_improvement = np.float64(suff)
         self.optim_state = dict(mesh_size=self.mesh_size, search_mesh_size=2.0 ** ssi, search_size_integer=ssi, tol_mesh=2.0 ** -19,
                                 iter=it, periodic_vars=np.zeros((1, D), bool), uncertainty_handling_level=level,
-                                fval=self.fval, fsd=self.fsd, u_success=[], y_success=[], f_success=[])
+                                fval=self.fval, fsd=self.fsd, u_success=[], y_success=[], f_success=[],
+                                # mirrors of the incumbent in optim_state may be stale after a noisy swap: arbitrary values
+                                u=sym_array(eng, "stale_u", (D,)), yval=eng.real("stale_y"), usuccess=sym_array(eng, "stale_us", (D,)))
         fc0 = 10
         opts["max_fun_evals"] = fc0 + p.get("budget_left", 10)
         # optim_state keeps the copy taken at construction; _init_optimization_ later reserves the final noisy samples
